@@ -202,21 +202,21 @@ def decodeSteps (P : Prims) (b : Block) : List Step :=
 
 /-- `verifyHeader`, non-VBFT branch (`header.Height == 0 → return nil` is unreachable behind the next-height guard) -/
 def verifyHeaderSteps (P : Prims) (h : Hdr) : List Step :=
-  [ .guard "verifyHeader: prevHeader == nil" (fun l => if (lookupHeader l h.u.prev).isNone then some .prevUnknown else none),
-    .guard "verifyHeader: prevHeader.Height+1 != header.Height"
+  [ .guard "prevHeader == nil" (fun l => if (lookupHeader l h.u.prev).isNone then some .prevUnknown else none),
+    .guard "prevHeader.Height+1 != header.Height"
       (fun l => match lookupHeader l h.u.prev with
         | some ph => if (ph.u.height + 1) % u32 ≠ h.u.height then some .prevHeight else none
         | none => none),
-    .guard "verifyHeader: prevHeader.Timestamp >= header.Timestamp"
+    .guard "prevHeader.Timestamp >= header.Timestamp"
       (fun l => match lookupHeader l h.u.prev with
         | some ph => if ph.u.ts ≥ h.u.ts then some .timestamp else none
         | none => none),
-    .guard "verifyHeader: AddressFromBookkeepers" (fun _ => if (P.addrOf h.keys).isNone then some .bkAddr else none),
-    .guard "verifyHeader: prevHeader.NextBookkeeper != address"
+    .guard "AddressFromBookkeepers" (fun _ => if (P.addrOf h.keys).isNone then some .bkAddr else none),
+    .guard "prevHeader.NextBookkeeper != address"
       (fun l => match lookupHeader l h.u.prev, P.addrOf h.keys with
         | some ph, some a => if ph.u.nextBk ≠ a then some .bkMismatch else none
         | _, _ => none),
-    .guard "verifyHeader: VerifyMultiSignature"
+    .guard "VerifyMultiSignature"
       (fun _ => verifyMulti P (P.hdrHash h.u) h.keys (OntVerif.Gen.Quorum.ledgerStore_m h.keys.length) h.sigs) ]
 
 def putBlock (w : W) (l : Ledger) : Ledger := { l with mem := { l.mem with bBlock := w :: l.mem.bBlock } }
@@ -233,37 +233,37 @@ def submitSteps (P : Prims) (b : Block) : List Step :=
   let txHashes := b.txs.map P.txHash
   [ .guard "block.Header.Height != 0 && blockRoot != block.Header.BlockRoot"
       (fun l => if h ≠ 0 ∧ P.rootWith l.mem.blockLeaves b.hdr.u.txRoot ≠ b.hdr.u.blockRoot then some .blockRoot else none),
-    .effect "blockStore.NewBatch" (fun l => { l with mem := { l.mem with bBlock := [] } }),
-    .effect "stateStore.NewBatch" (fun l => { l with mem := { l.mem with bState := [] } }),
-    .effect "eventStore.NewBatch" (fun l => { l with mem := { l.mem with bEvent := [] } }),
-    .effect "saveBlockToBlockStore: setHeaderIndex" (setHeaderIndex h hash),
-    .effect "blockStore.SaveCurrentBlock" (putBlock (.curBlock h hash)),
-    .effect "blockStore.SaveBlockHash" (putBlock (.blockHash h hash)),
-    .effect "blockStore.SaveBlock: SaveHeader" (putBlock (.header hash b.hdr txHashes)),
-    .effect "blockStore.SaveBlock: SaveTransaction*" (fun l => b.txs.foldl (fun l t => putBlock (.tx (P.txHash t) t h) l) l),
-    .effect "blockStore.SaveBloomData" (putBlock (.bloom h)),
-    .effect "saveBlockToStateStore: SaveNotify*" (fun l => txHashes.foldl (fun l t => putEvent (.notify t) l) l),
-    .effect "stateStore.AddStateMerkleTreeRoot"
+    .effect "this.blockStore.NewBatch" (fun l => { l with mem := { l.mem with bBlock := [] } }),
+    .effect "this.stateStore.NewBatch" (fun l => { l with mem := { l.mem with bState := [] } }),
+    .effect "this.eventStore.NewBatch" (fun l => { l with mem := { l.mem with bEvent := [] } }),
+    .effect "this.setHeaderIndex" (setHeaderIndex h hash),
+    .effect "this.blockStore.SaveCurrentBlock" (putBlock (.curBlock h hash)),
+    .effect "this.blockStore.SaveBlockHash" (putBlock (.blockHash h hash)),
+    .effect "this.blockStore.SaveBlock"      -- SaveHeader, then SaveTransaction for every transaction
+      (fun l => b.txs.foldl (fun l t => putBlock (.tx (P.txHash t) t h) l) (putBlock (.header hash b.hdr txHashes) l)),
+    .effect "this.blockStore.SaveBloomData" (putBlock (.bloom h)),
+    .effect "SaveNotify" (fun l => txHashes.foldl (fun l t => putEvent (.notify t) l) l),
+    .effect "this.stateStore.AddStateMerkleTreeRoot"
       (fun l => match execRes P l b with
         | some (ws, _) =>
           let leaves := l.mem.deltaLeaves ++ [ws]
           putState (.stateRoot h ws (P.stateRootWith l.mem.deltaLeaves ws))
             (putState (.stateTree leaves) { l with mem := { l.mem with deltaLeaves := leaves } })
         | none => l),
-    .effect "stateStore.AddBlockMerkleTreeRoot"
+    .effect "this.stateStore.AddBlockMerkleTreeRoot"
       (fun l => let leaves := l.mem.blockLeaves ++ [b.hdr.u.txRoot]
         putState (.blockTree leaves) { l with mem := { l.mem with blockLeaves := leaves } }),
-    .effect "stateStore.SaveCurrentBlock" (putState (.curBlock h hash)),
-    .effect "saveBlockToStateStore: WriteSet"
+    .effect "this.stateStore.SaveCurrentBlock" (putState (.curBlock h hash)),
+    .effect "result.WriteSet.ForEach"
       (fun l => match execRes P l b with
         | some (_, st) => putState (.state st) l
         | none => l),
-    .effect "saveBlockToEventStore"
-      (fun l => putEvent (.curBlock h hash) (if txHashes.isEmpty then l else putEvent (.evBlock h txHashes) l)),
-    .effect "blockStore.CommitTo" (fun l => { l with disk := { l.disk with block := l.mem.bBlock ++ l.disk.block } }),
-    .effect "eventStore.CommitTo" (fun l => { l with disk := { l.disk with event := l.mem.bEvent ++ l.disk.event } }),
-    .effect "stateStore.CommitTo" (fun l => { l with disk := { l.disk with state := l.mem.bState ++ l.disk.state } }),
-    .effect "setCurrentBlock" (fun l => { l with mem := { l.mem with curHeight := h, curHash := hash } }) ]
+    .effect "this.eventStore.SaveEventNotifyByBlock" (fun l => if txHashes.isEmpty then l else putEvent (.evBlock h txHashes) l),
+    .effect "this.eventStore.SaveCurrentBlock" (putEvent (.curBlock h hash)),
+    .effect "this.blockStore.CommitTo" (fun l => { l with disk := { l.disk with block := l.mem.bBlock ++ l.disk.block } }),
+    .effect "this.eventStore.CommitTo" (fun l => { l with disk := { l.disk with event := l.mem.bEvent ++ l.disk.event } }),
+    .effect "this.stateStore.CommitTo" (fun l => { l with disk := { l.disk with state := l.mem.bState ++ l.disk.state } }),
+    .effect "this.setCurrentBlock" (fun l => { l with mem := { l.mem with curHeight := h, curHash := hash } }) ]
 
 def delHeaderCache (hash : Hash) (l : Ledger) : Ledger :=
   { l with mem := { l.mem with hdrCache := l.mem.hdrCache.filter (fun e => e.1 ≠ hash) } }
@@ -286,7 +286,7 @@ def addBlockSteps (P : Prims) (b : Block) (sr : Hash) : List Step :=
            | some (ws, _) => if b.txs ≠ [] ∧ P.stateRootWith l.mem.deltaLeaves ws ≠ sr then some .stateRoot else none
            | none => none) ]
   ++ submitSteps P b
-  ++ [ .effect "delHeaderCache" (delHeaderCache (P.hdrHash b.hdr.u)) ]
+  ++ [ .effect "this.delHeaderCache" (delHeaderCache (P.hdrHash b.hdr.u)) ]
 
 /-- `ExecuteBlock(block)` then `SubmitBlock(block, nil, result)`: the path of a consensus node.  `ExecuteBlock` answers a
 stale height with the stored state root (no error) and `SubmitBlock` then returns nil. -/
@@ -300,7 +300,7 @@ def submitBlockSteps (P : Prims) (b : Block) : List Step :=
   ++ heightGuards b
   ++ verifyHeaderSteps P b.hdr
   ++ submitSteps P b
-  ++ [ .effect "delHeaderCache" (delHeaderCache (P.hdrHash b.hdr.u)) ]
+  ++ [ .effect "this.delHeaderCache" (delHeaderCache (P.hdrHash b.hdr.u)) ]
 
 /-- bytes from a peer: `types.BlockFromRawBytes` then `AddBlock` -/
 def addBlockBytesSteps (P : Prims) (b : Block) (sr : Hash) : List Step :=
@@ -315,8 +315,8 @@ def addHeaderSteps (P : Prims) (h : Hdr) : List Step :=
   [ .guard "header.Height != nextHeaderHeight"
       (fun l => if h.u.height ≠ ((if l.mem.hdrLast = 0 then l.mem.curHeight else l.mem.hdrLast) + 1) % u32 then some .notNext else none) ]
   ++ verifyHeaderSteps P h
-  ++ [ .effect "addHeaderCache" (fun l => { l with mem := { l.mem with hdrCache := (P.hdrHash h.u, h) :: l.mem.hdrCache } }),
-       .effect "setHeaderIndex" (setHeaderIndex h.u.height (P.hdrHash h.u)) ]
+  ++ [ .effect "this.addHeaderCache" (fun l => { l with mem := { l.mem with hdrCache := (P.hdrHash h.u, h) :: l.mem.hdrCache } }),
+       .effect "this.setHeaderIndex" (setHeaderIndex h.u.height (P.hdrHash h.u)) ]
 
 def addHeader (P : Prims) (h : Hdr) (l : Ledger) : Outcome × Ledger := run (addHeaderSteps P h) l
 
